@@ -4,6 +4,7 @@ import (
 	"fmt"
 	"go/ast"
 	"go/token"
+	"go/types"
 	"sort"
 	"strings"
 )
@@ -265,4 +266,137 @@ func c04Whitespace(w *World, r *Report) {
 	pe := NewPredEval(w, intDom{})
 	ws := pe.TrueSet(w.Method("xpath", "CommonLex", "isWhitespace")).(ISet)
 	r.Check(ws.equal(wsSet), "R04.15", "CommonLex.isWhitespace", token.NoPos, ws.String(), "the look-ahead helper treats "+ws.String()+" as whitespace, XPath ExprWhitespace is "+wsSet.String()+": e.g. U+00A0 or form feed between a prefix and ':' is swallowed instead of rejected")
+}
+
+// R04.16  the leafref lexer hands the parser a name or function token only
+// from its own LexName. The common lexer's methods are inherited by embedding;
+// any of them that can return a value-carrying token the path-arg grammar
+// accepts (NAMETEST, FUNC) must be overridden by the leafref lexer, otherwise
+// e.g. '*' arrives as a wildcard NAMETEST and "/a/*" is accepted as a path.
+func c04LeafrefOverrides(w *World, r *Report) {
+	xp := w.Pkg("xpath")
+	lp := w.Pkg("xpath/grammars/leafref")
+	carrying := map[int64]string{xutilsTok(w, "NAMETEST"): "NAMETEST", xutilsTok(w, "FUNC"): "FUNC"}
+	overridden := map[string]bool{}
+	for _, fd := range funcDecls(lp) {
+		if fd.Recv != nil && len(fd.Recv.List) == 1 && strings.Contains(types.ExprString(fd.Recv.List[0].Type), "leafrefLex") {
+			overridden[fd.Name.Name] = true
+		}
+	}
+	n := 0
+	for _, fd := range funcDecls(xp) {
+		if fd.Recv == nil || !strings.Contains(types.ExprString(fd.Recv.List[0].Type), "CommonLex") || !strings.HasPrefix(fd.Name.Name, "Lex") {
+			continue
+		}
+		var toks []string
+		for _, ret := range returnsIn(fd.Body) {
+			if len(ret.Results) == 0 {
+				continue
+			}
+			if v, ok := ConstInt(xp, ret.Results[0]); ok {
+				if name, is := carrying[v]; is {
+					toks = append(toks, name)
+				}
+			}
+		}
+		if len(toks) == 0 {
+			continue
+		}
+		n++
+		r.Check(overridden[fd.Name.Name], "R04.16", "leafref lexer overrides CommonLex."+fd.Name.Name, fd.Pos(), "returns "+strings.Join(toks, ",")+" in the common lexer; the leafref lexer has its own",
+			"CommonLex."+fd.Name.Name+" can return "+strings.Join(toks, ",")+" and is inherited unchanged by the leafref lexer: the path-arg compiler accepts what that method lexes (e.g. '*' as a node identifier), which RFC 6020 path-arg does not have")
+	}
+	if n == 0 {
+		panic(undecided{"no CommonLex method returns NAMETEST/FUNC"})
+	}
+}
+
+// R04.17  a QName's local part is an NCName: wherever a lexer builds a name
+// token with ConstructToken from a character it fetched itself (the local part
+// after ':'), that character has passed IsNameStartChar; the first character
+// of a name is tested by LexCommon before LexName is called.
+func c04LocalPartStart(w *World, r *Report) {
+	n := 0
+	for _, key := range []string{"xpath", "xpath/grammars/leafref"} {
+		p := w.Pkg(key)
+		for _, fd := range funcDecls(p) {
+			if fd.Name.Name != "LexName" || fd.Body == nil {
+				continue
+			}
+			k := 0
+			ast.Inspect(fd.Body, func(x ast.Node) bool {
+				ce, ok := x.(*ast.CallExpr)
+				if !ok {
+					return true
+				}
+				se, ok := ce.Fun.(*ast.SelectorExpr)
+				if !ok || se.Sel.Name != "ConstructToken" || len(ce.Args) < 1 {
+					return true
+				}
+				first := objOfIdent(p, ce.Args[0])
+				if first == nil {
+					return true
+				}
+				k++
+				what := fmt.Sprintf("%s.%s: ConstructToken #%d", key, funcDeclName(fd), k)
+				if first == paramObj(p, fd, 0) {
+					r.OK("R04.17", what, ce.Pos(), "first character is LexName's parameter, tested by LexCommon")
+					n++
+					return true
+				}
+				// a local: needs `if !x.IsNameStartChar(c) { …; return }` before the call
+				guarded := false
+				ast.Inspect(fd.Body, func(y ast.Node) bool {
+					is, ok := y.(*ast.IfStmt)
+					if !ok || is.End() > ce.Pos() {
+						return true
+					}
+					u, ok := ast.Unparen(is.Cond).(*ast.UnaryExpr)
+					if !ok || u.Op != token.NOT {
+						return true
+					}
+					c2, ok := ast.Unparen(u.X).(*ast.CallExpr)
+					if !ok || len(c2.Args) != 1 || objOfIdent(p, c2.Args[0]) != first {
+						return true
+					}
+					if s2, ok := c2.Fun.(*ast.SelectorExpr); ok && s2.Sel.Name == "IsNameStartChar" {
+						if l := len(is.Body.List); l > 0 {
+							if _, isRet := is.Body.List[l-1].(*ast.ReturnStmt); isRet {
+								guarded = true
+							}
+						}
+					}
+					return true
+				})
+				n++
+				r.Check(guarded, "R04.17", what, ce.Pos(), "character tested with IsNameStartChar before the token is built", "the local part of a prefixed name is collected without testing its first character: pfx:1, pfx:-a and pfx:.a are accepted as name tests")
+				return true
+			})
+		}
+	}
+	// LexCommon tests the first character
+	fd, p, _ := lexCommonSwitch(w)
+	okFirst := false
+	ast.Inspect(fd.Body, func(x ast.Node) bool {
+		is, ok := x.(*ast.IfStmt)
+		if !ok {
+			return true
+		}
+		c, ok := ast.Unparen(is.Cond).(*ast.CallExpr)
+		if !ok {
+			return true
+		}
+		if se, ok := c.Fun.(*ast.SelectorExpr); ok && se.Sel.Name == "IsNameStartChar" {
+			for _, ce := range callsIn(p, is.Body) {
+				if s2, ok := ce.Fun.(*ast.SelectorExpr); ok && s2.Sel.Name == "LexName" {
+					okFirst = true
+				}
+			}
+		}
+		return true
+	})
+	r.Check(okFirst, "R04.17", "LexCommon tests the first character of a name", fd.Pos(), "LexName is called only under IsNameStartChar(c)", "LexName is reached without the name-start test")
+	if n < 3 {
+		panic(undecided{"fewer ConstructToken calls in LexName than expected"})
+	}
 }
